@@ -43,7 +43,7 @@ class Note(object):
 
 class Call(object):
     __slots__ = ("name", "args", "t", "evno", "seq", "opi", "obj", "side", "oblig", "sat_seen",
-                 "removed", "completion", "base", "n", "prio_at_call", "progress_t", "last_g")
+                 "removed", "completion", "base", "n", "prio_at_call", "progress_t", "last_g", "base0")
 
     def __init__(self, name, args, t, evno, seq, opi):
         self.name, self.args, self.t, self.evno, self.seq, self.opi = name, args, t, evno, seq, opi
@@ -56,6 +56,7 @@ class Call(object):
         self.base = 0
         self.n = 0
         self.prio_at_call = 0
+        self.base0 = 0            # holding when the call was made (base is lowered when the holding is robbed)
         self.progress_t = None    # last time a multi-step call was seen to make partial progress
         self.last_g = None
 
@@ -76,6 +77,7 @@ class Proc(object):
         self.start_pending = 0
         self.timers = {}           # handle -> Note
         self.ev_pos_t = None       # last time a snapshot showed events addressed to this process
+        self.ev_pos_ev = -1        # ... and the number of that event
 
 
 class Analysis(object):
@@ -258,6 +260,7 @@ class SimOracle(object):
         for p in self.procs:
             if self.lib_int("p%d.ev" % p.pid) > 0:
                 p.ev_pos_t = tm
+                p.ev_pos_ev = self.evno
         self.compare_model_with_library()
         self.ppre_in_event = {}
 
@@ -288,9 +291,12 @@ class SimOracle(object):
                     who = got + ([want] if want is not None else [])
                     if any(self.procs[w].status == "F" for w in who if w < len(self.procs)):
                         fam = "C09"
-                    self.viol(fam, "%s/holder-disagrees" % fam,
-                              "%s: library attributes it to %s, the calling processes were told %s"
-                              % (name, got or "nobody", "p%d" % want if want is not None else "nobody"))
+                    msg = "%s: library attributes it to %s, the calling processes were told %s" % (
+                        name, got or "nobody", "p%d" % want if want is not None else "nobody")
+                    self.viol(fam, "%s/holder-disagrees" % fam, msg)
+                    if fam == "C09":
+                        # C05 too: "ending or stopping the holder frees the resource for the next waiter"
+                        self.viol("C05", "C05/held-by-ended-process", msg + " (a process that has ended)")
                     self.holder[name] = got[0] if got else None   # resynchronise: report one defect once
                     for q in self.procs:
                         q.res.discard(name)
@@ -310,7 +316,7 @@ class SimOracle(object):
                     if inflight:
                         lo, hi = cur.base, cur.base + cur.n
                         if cur.last_g is not None and g != cur.last_g:
-                            cur.progress_t = self.time
+                            cur.progress_t = self.evno
                         # while an acquisition is in flight the holding can only grow, unless it is taken away
                         robbed = cur.last_g is not None and g < cur.last_g
                         cur.last_g = g
@@ -353,7 +359,7 @@ class SimOracle(object):
                         am = self.lib_int("p%d.am" % p.pid, cur.n if cur.name == "bput" else 0)
                         want += (cur.n - am) if cur.name == "bput" else -am
                         if cur.last_g is not None and am != cur.last_g:
-                            cur.progress_t = self.time
+                            cur.progress_t = self.evno
                         cur.last_g = am
                 got = self.lib_int(name + ".l")
                 if got != want:
@@ -625,6 +631,7 @@ class SimOracle(object):
                 c.obj = args[0]
                 c.n = int(args[1])
                 c.base = p.pool.get(c.obj, 0)
+                c.base0 = c.base
                 if name == "ppre":
                     self.ppre_in_event.setdefault(c.obj, []).append((pid, p.prio))
                 if c.base > 0:
@@ -647,7 +654,7 @@ class SimOracle(object):
                 c.args = [int(args[0])]
             c.side = GUARD_OF_OP.get(name, 0)
             if name in GUARD_OF_OP:
-                self.arrivals.setdefault((c.obj, c.side), []).append((self.time, pid))
+                self.arrivals.setdefault((c.obj, c.side), []).append((self.seq_now, pid))
             p.cur = c
         else:
             self.nonblocking(p, name, args)
@@ -967,8 +974,6 @@ class SimOracle(object):
             self.cls("c06-three-waiters")
         for v in waiting:
             vc = v.cur
-            if not (vc.t < T):
-                continue            # arrived in this very instant: may not have been queued yet
             if v.prio_changed_at == T:
                 self.cls("c06-skipped-priority-change")
                 continue
@@ -981,31 +986,33 @@ class SimOracle(object):
                                           and vc.sat_seen[T] <= c.sat_seen[T]):
                 continue            # v was not found satisfied by the signal that woke p (or an earlier one)
             if v.prio > p.prio:
+                if not (vc.t < T):
+                    continue        # arrived in this very instant: the grant to p may have been made before
                 self.viol("C06", "C06/lower-priority-served-first",
                           "p%d (priority %d, waiting since %s) was served on %s while p%d (priority %d, waiting since %s) "
                           "is still waiting" % (p.pid, p.prio, c.t, c.obj, v.pid, v.prio, vc.t))
-            elif v.prio == p.prio and vc.t < c.t:
-                # Equal priorities are ordered by when they started waiting. From outside we cannot see
-                # a waiter that was woken in its turn and went back to the end of the line because
-                # (a) its request needs several helpings (visible as partial progress), or (b) a third
-                # process arriving in the meantime took what it had been woken for. Only judge when
-                # neither can have happened since p started waiting.
-                if vc.progress_t is not None and vc.progress_t >= c.t:
+            elif v.prio == p.prio and (vc.t < c.t or (vc.t == c.t and vc.seq < c.seq)):
+                # Equal priorities are ordered by when they started waiting (within one instant: in the order
+                # of their calls). From outside we cannot see a waiter that was woken in its turn and went
+                # back to the end of the line because (a) its request needs several helpings (visible as
+                # partial progress), or (b) what it had been woken for was gone when it ran (a third process
+                # took it, or the library rang twice for one unit). Such a waiter had an event scheduled for it
+                # after p arrived; only judge when that, and partial progress, can be ruled out.
+                if vc.progress_t is not None and vc.progress_t >= c.evno:
                     self.cls("c06-skipped-partial-progress")
                     continue
-                if c.name != "cwait" and v.ev_pos_t is not None and v.ev_pos_t >= c.t:
-                    # something was scheduled for v since p arrived: it may have been woken in its turn,
-                    # found nothing left (the library may ring twice for one unit) and queued up again
+                if c.name != "cwait" and v.ev_pos_ev >= c.evno:
                     self.cls("c06-skipped-possibly-woken")
                     continue
-                if c.name != "cwait" and any(tm >= c.t and pid not in (p.pid, v.pid)
-                                             for (tm, pid) in self.arrivals.get((c.obj, c.side), ())):
+                if c.name != "cwait" and any(sq > c.seq and pid not in (p.pid, v.pid)
+                                             for (sq, pid) in self.arrivals.get((c.obj, c.side), ())):
                     self.cls("c06-skipped-third-arrival")
                     continue
-                self.cls("c06-fifo-judged")
-                self.viol("C06", "C06/later-arrival-served-first/%s" % self.sc.objs[c.obj][0],
-                          "p%d (priority %d, waiting since %s) was served on %s while p%d (same priority, waiting since %s) "
-                          "is still waiting" % (p.pid, p.prio, c.t, c.obj, v.pid, vc.t))
+                same = vc.t == c.t
+                self.cls("c06-fifo-judged-same-instant" if same else "c06-fifo-judged")
+                self.viol("C06", "C06/later-arrival-served-first/%s%s" % (self.sc.objs[c.obj][0], "/same-instant" if same else ""),
+                          "p%d (priority %d, waiting since %s, call #%d) was served on %s while p%d (same priority, waiting "
+                          "since %s, call #%d) is still waiting" % (p.pid, p.prio, c.t, c.seq, c.obj, v.pid, vc.t, vc.seq))
 
     def ret_acquire(self, p, c, ret, outs, blocked, note):
         r = c.obj
@@ -1039,13 +1046,16 @@ class SimOracle(object):
             # it may have robbed somebody in this event before returning
             self.ppre_in_event.setdefault(pl, []).append((p.pid, p.prio))
         if ret == SUCCESS:
-            want = c.base + c.n
-            if c.completion is not None and c.completion[0] == "preempted-from":
-                want = held_now        # it was robbed while waiting and then completed: amount checked via snapshots
-            p.pool[pl] = c.base + c.n if c.completion is None else held_now
+            # exactly n more than it held when it called, whatever happened in between
+            want = c.base0 + c.n
+            robbed_meanwhile = c.completion is not None and c.completion[0] == "preempted-from"
+            p.pool[pl] = held_now
             if held_now != want:
-                self.viol("C07", "C07/acquire-amount", "p%d: %s(%s, %d) returned SUCCESS, holds %d, expected %d"
-                          % (p.pid, c.name, pl, c.n, held_now, want))
+                self.viol("C07", "C07/acquire-amount%s" % ("/after-robbery" if robbed_meanwhile else ""),
+                          "p%d: %s(%s, %d) returned SUCCESS, holds %d, expected %d%s"
+                          % (p.pid, c.name, pl, c.n, held_now, want,
+                             " (its holding was taken by a preemption while the call was in progress)"
+                             if robbed_meanwhile else ""))
             if blocked:
                 self.cls("pool-waited")
                 self.serve_order_check(p, c)
